@@ -45,6 +45,9 @@ type bridgeSite struct {
 	Fn     *ssa.Function     // the function containing the go statements
 	Copies []ssa.Instruction // io.Copy calls, one per goroutine
 	Gos    []*ssa.Function
+	// destination and source of each direction, as values of Fn (a direction started as
+	// `go copyDir(dst, src, …)` from a shared function body has them at its go statement)
+	Dst, Src []ssa.Value
 }
 
 func bridgeSites(p *Prog) []*bridgeSite {
@@ -59,8 +62,55 @@ func bridgeSites(p *Prog) []*bridgeSite {
 			if len(cp) == 1 && goBodyOnce(cl) {
 				bs.Copies = append(bs.Copies, cp[0])
 				bs.Gos = append(bs.Gos, cl)
+				a := PArgs(CallOf(cp[0]))
+				bs.Dst = append(bs.Dst, a[0])
+				bs.Src = append(bs.Src, a[1])
 			}
 		}
+		// the two directions started from one new function that takes destination and source as
+		// parameters: one direction per go statement, read with that statement's arguments
+		EachInstrRaw(fn, func(i ssa.Instruction) {
+			g, isGo := i.(*ssa.Go)
+			if !isGo || InLoop(g.Block()) {
+				return
+			}
+			h := g.Call.StaticCallee()
+			if h == nil || h.Parent() != nil || !IsNewHelper(h) || len(h.Blocks) == 0 {
+				return
+			}
+			cp := Calls(h, "io.Copy", "io.CopyBuffer")
+			if len(cp) != 1 || cp[0].Parent() != h {
+				return
+			}
+			a := CallOf(cp[0]).Args
+			idx := func(v ssa.Value) int {
+				for {
+					switch x := v.(type) {
+					case *ssa.MakeInterface:
+						v = x.X
+						continue
+					case *ssa.ChangeInterface:
+						v = x.X
+						continue
+					}
+					break
+				}
+				for k, prm := range h.Params {
+					if v == ssa.Value(prm) {
+						return k
+					}
+				}
+				return -1
+			}
+			kd, ks := idx(a[0]), idx(a[1])
+			if kd < 0 || ks < 0 || kd >= len(g.Call.Args) || ks >= len(g.Call.Args) {
+				return
+			}
+			bs.Copies = append(bs.Copies, cp[0])
+			bs.Gos = append(bs.Gos, h)
+			bs.Dst = append(bs.Dst, g.Call.Args[kd])
+			bs.Src = append(bs.Src, g.Call.Args[ks])
+		})
 		if len(bs.Copies) > 0 {
 			out = append(out, bs)
 		}
@@ -92,7 +142,7 @@ func runC15(c *Ctx) {
 	c.Rule("C15.E", "hex/text codec agreement and buffer discipline of WebsocketNetConn; sockets are closed orderly (= C16.A)", 10)
 	ruleNoAbortiveLinger(c, p, "C15.E")
 	c.Rule("C15.P", "two copy directions over the same pair, WaitGroup pairing", 4)
-	c.Rule("C15.H", "pass-through identity and streaming-path agreement; h2c accepted unconditionally", 7)
+	c.Rule("C15.H", "pass-through identity and streaming-path agreement; h2c accepted unconditionally; default request limits; no read of the frontend's own", 9)
 	T := "(*" + bridgeConn + ".WebsocketNetConn)"
 	_ = T
 
@@ -101,7 +151,7 @@ func runC15(c *Ctx) {
 			a := PArgs(CallOf(wm))
 			c.Check("C15.E", "Write:text-message", p, wm.Pos(), isConstInt(a[1], 1), "one websocket.TextMessage per Write", "Write does not send a TextMessage: the reading side only accepts text messages and silently skips everything else")
 			okEnc := false
-			if cv, ok := a[2].(*ssa.Convert); ok {
+			if cv, ok := Peel(a[2]).(*ssa.Convert); ok { // Peel: the encoding may sit in a new helper
 				if call := CallResult(cv.X, 0, "encoding/hex.EncodeToString"); call != nil {
 					okEnc = PathOf(PArgs(&call.Call)[0]) == P(wr, 1)
 				}
@@ -148,13 +198,14 @@ func runC15(c *Ctx) {
 			if cv, ok := src.(*ssa.Convert); ok {
 				src = cv.X
 			}
+			src = Peel(src) // through the parameter of a new decoding helper
 			if e, ok := src.(*ssa.Extract); ok && e.Tuple == rm.(ssa.Value) && e.Index == 1 {
 				okSrc = true
 			}
 			// the decoded bytes: result 0 of DecodeString, or dst[:n] of n, err := hex.Decode(dst, src)
 			isDecoded := func(v ssa.Value) bool {
 				if !inPlace {
-					e, ok := v.(*ssa.Extract)
+					e, ok := Peel(v).(*ssa.Extract)
 					return ok && e.Tuple == dec.(ssa.Value) && e.Index == 0
 				}
 				// dst itself when it was made with exactly the decoded size of this source:
@@ -256,9 +307,8 @@ func runC15(c *Ctx) {
 		ok := len(bs.Copies) == 2
 		why := fmt.Sprintf("%d copy goroutines", len(bs.Copies))
 		if ok {
-			a0, a1 := PArgs(CallOf(bs.Copies[0])), PArgs(CallOf(bs.Copies[1]))
-			d0, s0 := connRoots(a0[0]), connRoots(a0[1])
-			d1, s1 := connRoots(a1[0]), connRoots(a1[1])
+			d0, s0 := connRoots(bs.Dst[0]), connRoots(bs.Src[0])
+			d1, s1 := connRoots(bs.Dst[1]), connRoots(bs.Src[1])
 			if !(sharesRoot(d0, s1) && sharesRoot(s0, d1)) || sharesRoot(d0, s0) {
 				ok, why = false, "the two io.Copy calls are not (a→b, b→a) over the same two connections"
 			}
@@ -352,6 +402,25 @@ func runC15(c *Ctx) {
 				c.Check("C15.H", "handler:bridge-requests-are-upgraded", p, hf.Pos(), hU != nil && hP == nil, "an upgrade request for StreamingPath is bridged, not passed through", "an upgrade request for the streaming path is not (only) bridged")
 			}
 		}
+	}
+	// the frontend moves bytes with io.Copy only: it never reads the accepted connection itself
+	// (waiting for the client's first bytes before dialling starves protocols in which the
+	// server speaks first)
+	{
+		bad := ""
+		n := 0
+		for _, fn := range p.AllFuncsIn("utils/tcpbridge/tcp-bridge-frontend") {
+			n++
+			EachInstrRaw(fn, func(i ssa.Instruction) {
+				if cc := CallOf(i); cc != nil {
+					switch CalleeName(cc) {
+					case "(net.Conn).Read", "(io.Reader).Read", "io.ReadFull", "io.ReadAtLeast", "io.ReadAll", "(*bufio.Reader).Read", "(*bufio.Reader).Peek":
+						bad = CalleeName(cc) + " in " + FuncName(fn) + " at " + p.Pos(i.Pos())
+					}
+				}
+			})
+		}
+		c.Check("C15.H", "frontend:no-read-of-its-own", p, 0, bad == "" && n > 0, "the frontend never reads a connection itself: both directions are io.Copy loops started together", "the frontend reads a connection itself ("+bad+"): until that read returns the other direction does not exist, so a backend that speaks first (SMTP, SSH, MySQL greetings) is never heard")
 	}
 	if fm := c.need(p, "C15.H", "utils/tcpbridge/tcp-bridge-frontend.main"); fm != nil {
 		ok := false
@@ -452,6 +521,25 @@ func runC15(c *Ctx) {
 				}
 			}
 		}
+		// … with net/http's defaults for what a request may look like: no cap on the header block
+		// and no read/write deadline of its own (requests the backend port would accept are
+		// otherwise refused with 431, or cut, by the bridge)
+		limit := ""
+		for _, fn := range p.AllFuncsIn("utils/tcpbridge/tcp-bridge-backend") {
+			EachInstrRaw(fn, func(i ssa.Instruction) {
+				if st, isSt := i.(*ssa.Store); isSt {
+					if base, fld, okf := FieldAddrOf(st.Addr); okf && NamedType(base.Type()) == "net/http.Server" {
+						switch fld {
+						case "MaxHeaderBytes", "ReadTimeout", "WriteTimeout":
+							if cv, isC := st.Val.(*ssa.Const); !isC || cv.Value == nil || cv.Value.ExactString() != "0" {
+								limit = fld + " at " + p.Pos(st.Pos())
+							}
+						}
+					}
+				}
+			})
+		}
+		c.Check("C15.H", "backend:serves-with-default-request-limits", p, bm.Pos(), limit == "", "no MaxHeaderBytes/ReadTimeout/WriteTimeout on the bridge backend's server", "the bridge backend's http.Server sets "+limit+": a non-bridge request with a large header block (a big cookie, a long token) is answered 431 by the bridge instead of being passed through, long transfers are cut")
 		c.Check("C15.H", "backend:h2c-accepted-on-every-path", p, bm.Pos(), bad == "", "the bridge backend serves h2c.NewHandler(connection.Handler(…)) whatever its flags say", "tcp-bridge-backend.main: "+bad+": clear-text HTTP/2 callers (an agent run with -force-http2, gRPC clients) are reset by the HTTP/1.1 server instead of being passed through to the backend port")
 	}
 }
@@ -552,8 +640,7 @@ func runC16(c *Ctx) {
 		name := FuncName(bs.Fn)
 		for k, cp := range bs.Copies {
 			g := bs.Gos[k]
-			a := PArgs(CallOf(cp))
-			dst, src := connRoots(a[0]), connRoots(a[1])
+			dst, src := connRoots(bs.Dst[k]), connRoots(bs.Src[k])
 			// on every path from the Copy to the goroutine's return a close of dst happens:
 			// either a defer registered before the copy, or a call after it
 			closesDst, closesSrc := false, false
